@@ -8,7 +8,8 @@ def sh(cmd, **kw): return subprocess.run(cmd, shell=True, capture_output=True, t
 prefix, first = sys.argv[1], int(sys.argv[2])
 props = sys.argv[3:] or [f"C{i:02d}" for i in range(1, 21)]
 WT = f"/tmp/seedimp-{os.getpid()}"
-sh(f"git -C /repo worktree add -q --detach {WT} fa80142")
+HEAD = subprocess.run("git -C /repo rev-parse --short HEAD", shell=True, capture_output=True, text=True).stdout.strip()
+sh(f"git -C /repo worktree add -q --detach {WT} {HEAD}")
 for pid in props:
     out = f"{prefix}-{pid.lower()}-out"
     for k in (1, 2):
@@ -54,6 +55,6 @@ for pid in props:
         d = f"/verif/seeded/{sid}"
         if os.path.exists(d): shutil.rmtree(d)
         os.makedirs(d); shutil.copy(f"{out}/patch{k}.diff", f"{d}/patch.diff"); shutil.copytree(f"{out}/demo{k}", f"{d}/demo")
-        meta.update({"id": sid, "base_commit": "fa80142", "confirmed_by_lead": {"suite_passes_with_change": True, "demo_fails_with_change": True, "demo_passes_without_change": True, "how": "tools/seedimport.py in a scratch worktree of /repo at fa80142"}})
+        meta.update({"id": sid, "base_commit": HEAD, "confirmed_by_lead": {"suite_passes_with_change": True, "demo_fails_with_change": True, "demo_passes_without_change": True, "how": "tools/seedimport.py in a scratch worktree of /repo at " + HEAD}})
         json.dump(meta, open(f"{d}/meta.json", "w"), indent=1)
 sh(f"git -C /repo worktree remove --force {WT}")
